@@ -119,6 +119,7 @@ Clauses(st, c, af, nk) ==
     [] c.ev = "Tag" -> TagClauses(st, c, af, nk)
     [] c.ev \in {"Enable", "Disable"} -> FlagClauses(st, c, af, nk)
     [] c.ev = "ClearLog" -> ClearClauses(st, c, af, nk)
+    [] c.ev = "Retarget" -> {<<"C10.flags-unchanged", af.vact = st.vact /\ af.tact = st.tact>>}     \* the harness changed a target value: the optimizer was not called
 
 Violated(st, c, af, nk) == {x[1] : x \in {y \in Clauses(st, c, af, nk) : ~y[2]}}
 
